@@ -1,7 +1,7 @@
 """C12 - Log-encoding covers exactly the integer range."""
 from vx import core, v1types
 from vx.props import common
-from vx.units import instance_ops as io, algebra as al
+from vx.units import instance_ops as io, algebra as al, validate as va
 
 STUBS = '''impl Instance {
     // Instance::defined_ids (iterator collect; verified in C08)
@@ -23,9 +23,9 @@ def build(asm, tier):
     asm.file('spec/c12_spec.rs')
     asm.file('spec/poly_value.rs')
     asm.file('spec/merge_spec.rs')
-    asm.raw('} // mod lib\npub mod units {\n' + common.UNITS_USES + 'use super::lib::v1::decision_variable::Kind;\nbroadcast use super::lib::ax_default_f64;\n')
-    asm.raw(STUBS + al.MERGE_STUBS, 'assumed callee contracts')
-    asm.stubs.append(dict(unit='Instance::defined_ids', proved_in='C08'))
+    asm.raw('} // mod lib\npub mod units {\n' + common.UNITS_USES + 'use super::lib::v1::decision_variable::Kind;\nbroadcast use super::lib::ax_default_f64, super::lib::lemma_dv_ids_mem_b;\n')
+    asm.raw(al.MERGE_STUBS, 'assumed callee contracts')
+    asm.unit(va.defined_ids())
     asm.stubs.append(dict(unit='BTreeMap::into_iter().map(..).collect() (btree_into_terms)', proved_in='std contract'))
     asm.unit(al.linear_new())
     asm.unit(io.linear_from_f64())
@@ -45,7 +45,7 @@ proof fn vacuity_ok(v: v1::DecisionVariable) requires logenc_ok(v) { assert(fals
             'axioms: integrality is closed under + and -, 0 and 1 are integers (ax_int_consts, ax_int_add)',
             'A2: `x.log2().ceil() as usize` = exact ceil(log2 x) for finite x > 1 (<= 1024), usize::MAX for +inf (helper ceil_log2_usize)',
             'T4: BTreeSet::last = greatest element; Option::map over an annotated closure (R11)',
-            'T5 ASSUMED callee contract: Instance::defined_ids = set of defined ids',
+            'T4: iter().map(C).collect::<BTreeSet>() over an annotated closure (helper iter_map_collect_set); Instance::defined_ids is a verified unit of this check',
             'T4 std contracts of the BTreeMap entry API (entry / or_default with a prophecy-style &mut, remove) and of into_iter().map().collect() (ascending key order): prelude/btree_entry.rs',
         ],
         assumptions=common.A1 + ['precondition (observation, not in the property): defined ids are below 2^64 - 65536 so that max id + 1 + i cannot overflow'],
